@@ -10,7 +10,7 @@ CONSTANTS
   MaxDeviations = 2
   EnumDeviations = 1
   TraitSets <- TraitSetsQuick
-  MultiRanks = {2}
+  MultiRanks <- NegRank
   Vals = {0, 1}
 INVARIANTS SitesWellFormed
 CHECK_DEADLOCK FALSE
